@@ -1,4 +1,5 @@
 //! Correspondence harness of property C19 (regex compilation, automaton parsing, base64).
+mod reference;
 mod spec;
 
 use std::collections::BTreeMap;
@@ -136,6 +137,81 @@ fn sample_accepted(a: &Automaton, rng: &mut ChaCha8Rng, max_len: usize) -> Optio
 // Regex compilation: translation validation + sampled words
 // ---------------------------------------------------------------------------------------------
 
+/// Representatives of the classes of bytes that no `Single` set of the tree and no column of the
+/// automaton's transition table distinguishes.
+fn byte_classes(tree: &VerifRegexTree, a: &Automaton) -> Vec<u8> {
+    fn masks(t: &VerifRegexTree, out: &mut Vec<[u64; 4]>) {
+        match t {
+            VerifRegexTree::Single(letters) => {
+                let mut by: BTreeMap<usize, [u64; 4]> = BTreeMap::new();
+                for (b, m) in letters {
+                    by.entry(*m).or_insert([0; 4])[(*b as usize) / 64] |=
+                        1u64 << ((*b as usize) % 64);
+                }
+                out.extend(by.into_values());
+            }
+            VerifRegexTree::Concat(v) | VerifRegexTree::Union(v) | VerifRegexTree::Inter(v) => {
+                v.iter().for_each(|x| masks(x, out))
+            }
+            VerifRegexTree::Star(_, r) | VerifRegexTree::Complement(r) => masks(r, out),
+        }
+    }
+    let mut ms = vec![];
+    masks(tree, &mut ms);
+    ms.sort();
+    ms.dedup();
+    let mut seen: BTreeMap<Vec<usize>, u8> = BTreeMap::new();
+    let mut reps = vec![];
+    for b in 0..=255u8 {
+        let mut sig: Vec<usize> =
+            ms.iter().map(|m| ((m[(b as usize) / 64] >> ((b as usize) % 64)) & 1) as usize).collect();
+        for s in 0..a.nb_states {
+            match a.transitions.get(&(s, b)) {
+                None => sig.push(0),
+                Some(&(t, m)) => {
+                    sig.push(t + 1);
+                    sig.push(m)
+                }
+            }
+        }
+        if !seen.contains_key(&sig) {
+            seen.insert(sig, b);
+            reps.push(b);
+        }
+    }
+    reps
+}
+
+fn has_marked_complement(t: &VerifRegexTree) -> bool {
+    fn marked(t: &VerifRegexTree) -> bool {
+        match t {
+            VerifRegexTree::Single(l) => l.iter().any(|(_, m)| *m != 0),
+            VerifRegexTree::Concat(v) | VerifRegexTree::Union(v) | VerifRegexTree::Inter(v) => {
+                v.iter().any(marked)
+            }
+            VerifRegexTree::Star(_, r) | VerifRegexTree::Complement(r) => marked(r),
+        }
+    }
+    match t {
+        VerifRegexTree::Single(_) => false,
+        VerifRegexTree::Concat(v) | VerifRegexTree::Union(v) | VerifRegexTree::Inter(v) => {
+            v.iter().any(has_marked_complement)
+        }
+        VerifRegexTree::Star(_, r) => has_marked_complement(r),
+        VerifRegexTree::Complement(r) => marked(r) || has_marked_complement(r),
+    }
+}
+
+/// Key of a language difference between a compiled automaton and the reference language.
+fn lang_key(tree: &VerifRegexTree, tree_s: &str) -> String {
+    if has_marked_complement(tree) {
+        // `mark`/`mark_bytes`/`replace_markers` applied on top of `neg`/`minus` (see findings)
+        "regex-lang:marked-complement".to_string()
+    } else {
+        format!("regex-lang:{tree_s}")
+    }
+}
+
 struct Compiled {
     tree: VerifRegexTree,
     tree_s: String,
@@ -199,13 +275,60 @@ fn one_spec(ctx: &mut Ctx, s: &Spec, rng: &mut ChaCha8Rng, nwords: usize) -> Opt
         }
     ));
     let nontrivial = automaton.nb_states > 1 && !automaton.transitions.is_empty();
-    ctx.case(
-        "equiv",
-        nontrivial,
-        &format!("equiv {} | {}", tree_s, dfa_text(&automaton)),
-        "equiv",
+    // Reference exploration (same algorithm as the Lean search, much smaller budget): decides
+    // whether the all-words request is sent, and yields a concrete distinguishing word.
+    let rx = reference::from_tree(&tree);
+    let mut ms = vec![0usize];
+    reference::markers_of(&tree, &mut ms);
+    for (_, (_, m)) in automaton.transitions.iter() {
+        if !ms.contains(m) {
+            ms.push(*m)
+        }
+    }
+    ms.sort();
+    let reps = byte_classes(&tree, &automaton);
+    let letters: Vec<(u8, usize)> =
+        reps.iter().flat_map(|b| ms.iter().map(move |m| (*b, *m))).collect();
+    let (max_pairs, max_size) = if ctx.quick() { (600, 3000) } else { (1500, 6000) };
+    let explored = reference::explore(
+        automaton.initial_state,
+        &|s| automaton.final_states.contains(&s),
+        &|s, b| automaton.transitions.get(&(s, b)).copied(),
+        &rx,
+        &letters,
+        max_pairs,
+        max_size,
     );
-    ctx.count("programs");
+    match &explored {
+        reference::Explored::Budget => {
+            // coverage gap, not a verdict: the derivative automaton is too large for the budget
+            ctx.count("equiv:skipped-budget");
+        }
+        other => {
+            ctx.case(
+                "equiv",
+                nontrivial,
+                &format!("equiv {} | {}", tree_s, dfa_text(&automaton)),
+                "equiv",
+            );
+            ctx.count("programs");
+            ctx.count(&format!("equiv:classes-{}", match reps.len() { 0..=2 => "1-2", 3..=8 => "3-8", 9..=32 => "9-32", _ => "33+" }));
+            if let reference::Explored::Equiv(n) = other {
+                ctx.count_n("equiv:pairs-explored", *n as u64);
+            }
+            if let reference::Explored::Diff(w) = other {
+                let bytes: Vec<u8> = w.iter().map(|x| x.0).collect();
+                let marks: Vec<usize> = w.iter().map(|x| x.1).collect();
+                ctx.oracle_fail(
+                    &lang_key(&tree, &tree_s),
+                    "the compiled automaton and the regular expression disagree on a word",
+                    json!({"spec": spec_string(s), "tree": tree_s, "word_bytes": bytes, "word_markers": marks,
+                           "automaton_accepts_with": accepts(&automaton, &bytes),
+                           "reference_matches": reference::matches(&rx, &bytes, &marks)}),
+                );
+            }
+        }
+    }
     // sampled words: accepted ones (random walks), their mutations, random ones
     let mut words: Vec<Vec<u8>> = vec![vec![]];
     for _ in 0..nwords {
@@ -255,6 +378,19 @@ fn one_spec(ctx: &mut Ctx, s: &Spec, rng: &mut ChaCha8Rng, nwords: usize) -> Opt
                 ("0", ms)
             }
         };
+        let ref_ok = if ans == "1" {
+            reference::matches(&rx, &w, &markers)
+        } else {
+            reference::matches_bytes(&rx, &w, &ms).is_none()
+        };
+        if !ref_ok {
+            ctx.oracle_fail(
+                &lang_key(&tree, &tree_s),
+                "the compiled automaton and the regular expression disagree on a word",
+                json!({"spec": spec_string(s), "tree": tree_s, "word_bytes": w, "automaton_accepts": ans == "1",
+                       "automaton_markers": markers}),
+            );
+        }
         ctx.case(
             if ans == "1" { "match-accepted" } else { "match-rejected" },
             !w.is_empty(),
